@@ -344,6 +344,14 @@ def main(tier, seed):
     except Exception: rep.error('C11 relay: ' + traceback.format_exc()[-1500:])
     try: malformed(rep, tier)
     except Exception: rep.error('C11 malformed: ' + traceback.format_exc()[-2000:])
+    try:
+        # "exceptions raised by user code inside validators propagate unchanged" presupposes that beartype only RUNS that code where the validator algebra
+        # says it runs: the violation describer must not evaluate an operand the short-circuit semantics skips (a bare IndexError / AttributeError from a
+        # guarded operand is then beartype's doing, not the user's).  C12's bounded report contract, reported here for that clause.
+        from props import c12
+        n0 = len(rep.obls); nb = len(rep.bounded); c12.diagnosis(rep)
+        rep.obls[n0:] = [dict(o, name=o['name'].replace('C12.diagnosis', 'C11.validator_reports')) for o in rep.obls[n0:]]
+    except Exception: rep.error('C11 validator_reports: ' + traceback.format_exc()[-1500:])
     try: valid_comparisons(rep)
     except Exception: rep.error('C11 valid_comparisons: ' + traceback.format_exc()[-2000:])
     try:
